@@ -153,7 +153,8 @@ Definition bto (offsets : list Z) (c : content) : res content :=
           if negb (zlen offsets - 1 =? clen c) then Err EValue else
           if size =? 1 then do ix <- bto_size1_kernel offsets; ccarry c' ix
           else if forallb (fun ab : Z * Z => (0 <=? snd ab - fst ab) && (snd ab - fst ab =? size)) (pairs offsets)
-               then Ok c' else Err EValue
+               then grange c' 0 (clen c * size)   (* content_.getitem_range_nowrap(0, len * size_) *)
+               else Err EValue
       | _ => Err EValue
       end
   end.
